@@ -406,6 +406,7 @@ def _init():
 def run(ctx):
     from .. import xfeat
     xfeat.sweep(ctx, "C15")      # cross-feature compositions (pv/xfeat.py)
+    xfeat.decl_sweep(ctx, "C15")
     xfeat.sound_sweep(ctx, only=lambda pr: any(xfeat.FEATURE[s[0]] in ("array", "linalg") or s[0] == "lazy_get" for s in pr))
     level = 1 if ctx.thorough else 0
     tasks = []
@@ -447,7 +448,7 @@ def run(ctx):
 def replay(case):
     if isinstance(case, dict) and case.get("xfeat"):
         from .. import xfeat
-        return xfeat.sound_replay(case) if case.get("sound") else xfeat.replay(case, "C15")
+        return xfeat.decl_replay(case) if case.get("decl") else (xfeat.sound_replay(case) if case.get("sound") else xfeat.replay(case, "C15"))
     H.bind(case["p"])
 
     def tup(x):
